@@ -106,6 +106,7 @@ type strategyEngines struct {
 	multilineReverseSuffixSearcher *MultilineReverseSuffixSearcher // Issue #97
 	digitPrefilter                 *prefilter.DigitPrefilter
 	digitRunSkipSafe               bool
+	digitVerifyBounded             bool
 	ahoCorasick                    *ahocorasick.Automaton
 	finalStrategy                  Strategy
 }
@@ -174,6 +175,7 @@ func buildStrategyEngines(
 	if result.finalStrategy == UseDigitPrefilter {
 		result.digitPrefilter = prefilter.NewDigitPrefilter()
 		result.digitRunSkipSafe = isDigitRunSkipSafe(re)
+		result.digitVerifyBounded = !hasUnboundedRepeat(re, result.digitRunSkipSafe)
 	}
 
 	return result
@@ -638,6 +640,7 @@ func CompileRegexp(re *syntax.Regexp, config Config) (*Engine, error) {
 		multilineReverseSuffixSearcher: engines.multilineReverseSuffixSearcher,
 		digitPrefilter:                 engines.digitPrefilter,
 		digitRunSkipSafe:               engines.digitRunSkipSafe,
+		digitVerifyBounded:             engines.digitVerifyBounded,
 		ahoCorasick:                    engines.ahoCorasick,
 		anchoredLiteralInfo:            anchoredLiteralInfo,
 		prefilter:                      pf,
